@@ -191,6 +191,17 @@ def oracle_failures(pid, cases, binary):
                 e = expected_world(c['archs'], c['wstates'])
                 if e != c['impl']:
                     fails.append((c, 'ids differ from the discriminant rule: expected %s, implementation %s' % (e, c['impl'])))
+    elif pid == 'C08':
+        # "not across archetypes": the archetype id is part of every handle, so a declaration that compiles
+        # must give its archetypes pairwise distinct ids
+        for c in cases:
+            if c['kind'] == 'W' and c['impl'] and c['impl'][0] == 1:
+                ids, i = [], 2
+                for _ in range(c['impl'][1]):
+                    ids.append(c['impl'][i])
+                    i += 3 + 2 * c['impl'][i + 2]
+                if len(set(ids)) != len(ids):
+                    fails.append((c, 'two archetypes of a declaration that compiles share an ARCHETYPE_ID (their handles would be equal): ids %s' % ids))
     elif pid == 'C05':
         for c in cases:
             if c['kind'] == 'Q' and c['impl'] != [0, 9]:
